@@ -71,6 +71,7 @@ def runC05 (op : String) (j : Json) : R Json := do
     let Tk := if unwh then unwhiten wmi sc sub (some ch) else sub
     pure (Json.mkObj [("model", jRecord r), ("model_spec", Json.bool (sparseOK ch Tk r)),
                       ("kept", jNats ch),
+                      ("raises", Json.bool (sparseRaises Tw cols m)),
                       ("impl_spec", match impl with | some x => Json.bool (sparseOK ch Tk x) | none => Json.null)])
   | _ => .error s!"C05: unknown op {op}"
 
